@@ -103,6 +103,9 @@ pub enum Strat {
     PathNoMmap,
     /// `search_path` on a temp file, `MmapChoice::auto()`.
     PathMmap,
+    /// `search_path` on a named pipe fed by a writer thread: a path whose metadata says
+    /// "0 bytes" although it yields the whole input (as do /proc files and process substitution).
+    PathFifo,
 }
 
 impl Strat {
@@ -113,6 +116,7 @@ impl Strat {
             Strat::HeapLimit { chunks, limit } => format!("heap_limit(chunks={chunks:?},limit={limit})"),
             Strat::PathNoMmap => "path(no mmap)".into(),
             Strat::PathMmap => "path(mmap)".into(),
+            Strat::PathFifo => "path(named pipe)".into(),
         }
     }
     pub fn is_reader(&self) -> bool {
@@ -379,6 +383,9 @@ pub fn build_searcher(cfg: &SCfg, strat: &Strat) -> Searcher {
         Strat::PathNoMmap | Strat::Slice => {
             b.memory_map(MmapChoice::never());
         }
+        Strat::PathFifo => {
+            b.memory_map(unsafe { MmapChoice::auto() });
+        }
     }
     b.build()
 }
@@ -442,6 +449,39 @@ fn search_into<M: Matcher, S: grep_searcher::Sink<Error = io::Error>>(
             std::fs::write(&path, input).expect("write scratch input");
             let r = searcher.search_path(&matcher, &path, &mut sink);
             let _ = std::fs::remove_file(&path);
+            r
+        }
+        Strat::PathFifo => {
+            use std::os::unix::ffi::OsStrExt;
+            use std::os::unix::fs::OpenOptionsExt;
+            let path = scratch_path("fifo");
+            let c = std::ffi::CString::new(path.as_os_str().as_bytes()).expect("scratch path");
+            if unsafe { libc::mkfifo(c.as_ptr(), 0o600) } != 0 {
+                return (Err(io::Error::new(io::ErrorKind::Other, "mkfifo failed (harness)")), 0, 0, false);
+            }
+            let data = input.to_vec();
+            let wpath = path.clone();
+            let writer = std::thread::spawn(move || {
+                // wait (at most 5 s) for the searcher to open the read end; never block for good
+                let t0 = std::time::Instant::now();
+                let mut f = loop {
+                    match std::fs::OpenOptions::new().write(true).custom_flags(libc::O_NONBLOCK).open(&wpath) {
+                        Ok(f) => break f,
+                        Err(_) if t0.elapsed() < std::time::Duration::from_secs(5) => std::thread::sleep(std::time::Duration::from_millis(1)),
+                        Err(_) => return,
+                    }
+                };
+                // back to blocking writes; a reader that went away gives EPIPE (SIGPIPE is ignored)
+                unsafe {
+                    use std::os::unix::io::AsRawFd;
+                    let fl = libc::fcntl(f.as_raw_fd(), libc::F_GETFL);
+                    libc::fcntl(f.as_raw_fd(), libc::F_SETFL, fl & !libc::O_NONBLOCK);
+                }
+                let _ = std::io::Write::write_all(&mut f, &data);
+            });
+            let r = searcher.search_path(&matcher, &path, &mut sink);
+            let _ = std::fs::remove_file(&path);
+            let _ = writer.join();
             r
         }
     };
